@@ -106,7 +106,7 @@ func genC12(w *World, res *CheckResult) {
 
 // genLexerPositions: next and backup maintain loc/prev consistently with end/width.
 func genLexerPositions(w *World, res *CheckResult) {
-	for _, n := range []string{"lexer.lexer.next", "lexer.lexer.backup", "lexer.lexer.emitValue", "lexer.lexer.ignore", "lexer.lexer.acceptWord", "lexer.unhex", "lexer.unescapeChar", "lexer.digitVal"} {
+	for _, n := range []string{"lexer.lexer.next", "lexer.lexer.backup", "lexer.lexer.emitValue", "lexer.lexer.ignore", "lexer.lexer.acceptWord", "lexer.unhex", "lexer.unescapeChar", "lexer.digitVal", "lexer.unescape"} {
 		fn, ct := w.Func(n), w.Contracts[n]
 		if fn == nil || ct == nil {
 			res.Obls = append(res.Obls, missingObl(n+"/exists", "function or contract missing"))
